@@ -1140,7 +1140,11 @@ func (fv *funcVerifier) bitInfo(e ast.Expr) (shift, width int, ok bool) {
 				s, w, ok := fv.bitInfo(x.X)
 				if ok {
 					if tw > 0 && s+w+int(k) > tw {
-						return 0, tw, true
+						// high bits are shifted out; the low s+k bits are zero in any case
+						if s+int(k) >= tw {
+							return 0, 0, true
+						}
+						return s + int(k), tw - (s + int(k)), true
 					}
 					return s + int(k), w, true
 				}
